@@ -17,6 +17,7 @@ import PubModel.C19.LemmasAlls
 import PubModel.C19.LemmasRev
 import PubModel.C19.LemmasLayout2
 import PubModel.C19.LemmasCycle
+import PubModel.C19.LemmasTotal
 
 namespace PubModel.C19
 
@@ -89,6 +90,53 @@ theorem checkDAG_circle {g : Graph} {k : Nat} (h : checkDAG g = .circle k) :
         | some k' =>
           simp only [hc, Check.circle.injEq] at h
           rw [h]
+
+/-- **The checker always answers**: it neither runs out of the model's fuel (the
+    layering loop ends within `n + 1` rounds) nor reaches `panic("should find a
+    circle")` (when nodes are left over, the cycle search finds a cycle). -/
+theorem check_total {g : Graph} (hn : (nodes g).Nodup) :
+    checkDAG g ≠ .outOfFuel ∧ checkDAG g ≠ .panicNoCircle := by
+  have hsome := layersOf_isSome hn (g := g)
+  constructor
+  · intro h
+    unfold checkDAG makeLayers at h
+    cases hm : missing g with
+    | true => simp [hm] at h
+    | false =>
+      simp only [hm, Bool.false_eq_true, if_false] at h
+      cases hl : layersOf g with
+      | none => rw [hl] at hsome; simp at hsome
+      | some ls =>
+        simp only [hl] at h
+        by_cases hleft : leftOf g ls = []
+        · simp [hleft] at h
+        · simp only [hleft, if_false] at h
+          cases hc : minCircleLen g <;> simp [hc] at h
+  · intro h
+    have hacc : (checkDAG g).accepted = false := by rw [h]; rfl
+    unfold checkDAG makeLayers at h
+    cases hm : missing g with
+    | true => simp [hm] at h
+    | false =>
+      have hcl : Closed g := missing_false_iff.mp hm
+      -- not accepted although closed: there is a cycle, and the search finds one
+      have hnac : ¬ Acyclic g := fun hac => by
+        have := (check_iff hn).mpr ⟨hcl, hac⟩
+        rw [hacc] at this; cases this
+      have : ∃ v, Reach g v v := by
+        refine Classical.byContradiction fun hno => hnac fun v hr => hno ⟨v, hr⟩
+      obtain ⟨v, hr⟩ := this
+      obtain ⟨c, hc⟩ := cycle_of_reach hr
+      obtain ⟨m, hm', _⟩ := minCircleLen_min hcl hc
+      simp only [hm, Bool.false_eq_true, if_false] at h
+      cases hl : layersOf g with
+      | none => rw [hl] at hsome; simp at hsome
+      | some ls =>
+        simp only [hl] at h
+        by_cases hleft : leftOf g ls = []
+        · simp [hleft] at h
+        · simp only [hleft, if_false, hm'] at h
+          cases h
 
 /-- **A reported cycle is a real cycle**: consecutive nodes are joined by edges and
     the last node has an edge back to the first.  (`reportable g c`: `c` is one of the
@@ -194,6 +242,15 @@ example : ∃ m m' v, newMap [(0, [1, 2, 3]), (1, [3]), (2, [3]), (3, []), (4, [
     layoutMap m = .ok (m', v) ∧ m.layer.get 4 = 0 ∧ v.width = 3 ∧ v.height = 5 ∧
     v.pos = [(0, 0, 2), (1, 1, 2), (2, 1, 4), (3, 2, 2), (4, 1, 0)] :=
   ⟨_, _, _, rfl, rfl, by decide, by decide, by decide, by decide⟩
+
+/-- **`LayoutMap` always returns a view on an accepted graph**: `pushTight` never
+    reaches `panic("pushing to hard")`, the recursions of `checkPush` / `pushNode`
+    end (critical edges go strictly up and layers stay below `Nlayer`), and `findY`
+    always finds a free slot. -/
+theorem layout_total {g : Graph} (hn : (nodes g).Nodup) {m : Map} (h : newMap g = .ok m) :
+    ∃ m' v, layoutMap m = .ok (m', v) := by
+  obtain ⟨ls, hc, rfl⟩ := newMap_ok_iff.mp h
+  exact (accepted_of_check hn hc).layout_total
 
 /-- **Reversing a graph twice gives the graph back**: every adjacency list comes back
     with the same entries and multiplicities (`Graph.Reverse` sorts them), every key
